@@ -161,7 +161,9 @@ def tlc(module, cfg=None, *, workers=1, simulate=None, depth=None, env=None, tim
     cfg = cfg or module
     SPEC = Path(specdir) if specdir else globals()["SPEC"]
     meta = fresh("tlc-meta", tag or ("%s-%s-%d" % (module, cfg, os.getpid())))
-    jopts = ["-XX:+UseParallelGC", "-Xmx" + heap, "-Xss64m"]
+    jtmp = meta / "jtmp"   # TLC leaves an empty tlc-<n> directory in java.io.tmpdir per run
+    jtmp.mkdir(parents=True, exist_ok=True)
+    jopts = ["-XX:+UseParallelGC", "-Xmx" + heap, "-Xss64m", "-Djava.io.tmpdir=" + str(jtmp)]
     if deque:
         jopts.append("-Dtlc2.tool.queue.IStateQueue=StateDeque")
     cmd = ["timeout", str(timeout), "java"] + jopts + ["-cp", TLA_JAR, "tlc2.TLC",
